@@ -76,6 +76,38 @@ def gaussDiscreteArgs (st : GS K) (modes : List Nat) : PS K :=
 
 end discrete
 
+/-! ### Fock homodyne: the grid and the Hermite table (`fockbackend/ops.py: hermiteVals`) -/
+
+section hermite
+variable [Zero K] [One K] [Add K] [Sub K] [Neg K] [Mul K] [Div K] [NatCast K]
+
+/-- `np.linspace(-q_mag, q_mag, num_bins)[k]` = `-q + k · (2q / (num_bins - 1))` -/
+def linspacePt (q : K) (nb k : Nat) : K := -q + (k : K) * ((q + q) / ((nb : K) - 1))
+
+/-- `Hvals[0] = 1; Hvals[1] = 2x; Hvals[i] = 2x·Hvals[i-1] - 2(i-1)·Hvals[i-2]` at one point `x` -/
+def hermiteAt (x : K) : Nat → K
+  | 0 => 1
+  | 1 => (1 + 1) * x
+  | (i + 2) => (1 + 1) * x * hermiteAt x (i + 1) - (1 + 1) * ((i : K) + 1) * hermiteAt x i
+
+/-- `hermiteVals(q_mag, num_bins, m_omega_over_hbar, trunc)`: `x = s · q_tensor` with `s = sqrt(m_omega_over_hbar)` an input;
+entry `[n][k]` of the table -/
+def hermiteVals (q s : K) (nb : Nat) (n k : Nat) : K := hermiteAt (s * linspacePt q nb k) n
+
+end hermite
+
+/-! ### bosonic rejection sampler: the exponent of a peak with a complex mean -/
+
+section cxmean
+open SFV.Gauss SFV.Gauss.Cx
+variable [Zero K] [Add K] [Sub K] [Neg K] [Mul K]
+
+/-- `(x − μ)ᵀ W (x − μ)` for `μ = μ_R + i μ_I`, with `d = x − μ_R`, `m = μ_I` (`exp_arg` of a peak in `imag_means_ind`) -/
+def quadFormCx (W : Mat K) (d m : Vec K) (k : Nat) : Cx K :=
+  sumTo k fun a => sumTo k fun b => ((⟨d a, -(m a)⟩ : Cx K) * ofK (W a b)) * ⟨d b, -(m b)⟩
+
+end cxmean
+
 /-! ### bosonic rejection sampler (real weights, real means) -/
 
 /-- one Gaussian peak evaluated at the proposed point: weight, prefactor `1/sqrt(det(2π Σ))`, `exp(-½ q)` -/
